@@ -49,7 +49,19 @@ var (
 	helperSite   = map[*ssa.Function]*ssa.Call{} // helper → its unique call site
 	helperParent = map[*ssa.Function]*ssa.Function{}
 	vfCache      = map[*ssa.Function]*VFunc{}
+	// range-over-func: the synthetic yield closure holding a loop body → the dynamic call that runs the iterator
+	rangeBody = map[*ssa.Call]*ssa.Function{}
 )
+
+// isRangeBody: h is the body of a `for … := range f` loop (go/ssa lowers it to a synthetic
+// closure passed to the iterator). It is spliced into its parent as a loop.
+func isRangeBody(h *ssa.Function) bool {
+	if h == nil {
+		return false
+	}
+	site := helperSite[h]
+	return site != nil && rangeBody[site] == h
+}
 
 func mention(names ...string) {
 	for _, n := range names {
@@ -63,8 +75,32 @@ func computeHelpers(c *Ctx) {
 	helperParent = map[*ssa.Function]*ssa.Function{}
 	vfCache = map[*ssa.Function]*VFunc{}
 	canonCache = map[*ssa.Function]*canoner{}
+	rangeBody = map[*ssa.Call]*ssa.Function{}
 	if !inlineOn {
 		return
+	}
+	// range-over-func loop bodies
+	for _, f := range c.Funcs {
+		if c.IsTestFile(f.Pos()) {
+			continue
+		}
+		for _, b := range f.Blocks {
+			for _, in := range b.Instrs {
+				call, ok := in.(*ssa.Call)
+				if !ok || call.Call.IsInvoke() || call.Call.StaticCallee() != nil {
+					continue
+				}
+				for _, a := range call.Call.Args {
+					mc, ok := a.(*ssa.MakeClosure)
+					if !ok {
+						continue
+					}
+					if y, ok := mc.Fn.(*ssa.Function); ok && strings.Contains(y.Synthetic, "range-over-func") && y.Blocks != nil && y.Recover == nil {
+						rangeBody[call] = y
+					}
+				}
+			}
+		}
 	}
 	sites := map[*ssa.Function][]*ssa.Call{}
 	other := map[*ssa.Function]int{} // go/defer calls, value uses
@@ -134,6 +170,14 @@ func computeHelpers(c *Ctx) {
 		helperSite[h] = ss[0]
 		helperParent[h] = ss[0].Parent()
 	}
+	for call, y := range rangeBody {
+		if mentioned[funcName(y)] {
+			delete(rangeBody, call)
+			continue
+		}
+		helperSite[y] = call
+		helperParent[y] = call.Parent()
+	}
 	// drop recursion: a helper whose parent chain reaches itself
 	for h := range helperSite {
 		seen := map[*ssa.Function]bool{h: true}
@@ -150,6 +194,9 @@ func computeHelpers(c *Ctx) {
 func isInlined(call *ssa.Call) *ssa.Function {
 	if call == nil {
 		return nil
+	}
+	if y := rangeBody[call]; y != nil && helperSite[y] == call {
+		return y
 	}
 	h := call.Call.StaticCallee()
 	if h != nil && helperSite[h] == call {
@@ -229,13 +276,32 @@ func (vf *VFunc) splice(fn *ssa.Function, depth int) {
 	for _, pc := range calls {
 		vf.splice(pc.h, depth+1)
 		link(pc.before, vf.first[pc.h.Blocks[0]])
+		loop := isRangeBody(pc.h)
+		if loop {
+			link(pc.before, pc.after) // the sequence may be empty
+		}
 		for _, hb := range pc.h.Blocks {
 			if len(hb.Instrs) == 0 {
 				continue
 			}
 			if r, ok := hb.Instrs[len(hb.Instrs)-1].(*ssa.Return); ok {
 				vf.rets[pc.h] = append(vf.rets[pc.h], r)
+				if !loop {
+					link(vf.last[hb], pc.after)
+					continue
+				}
+				// loop body: "return false" leaves the loop (break / return), "return true" goes on to the next
+				// element or, when the sequence is exhausted, leaves it
+				again := true
+				if len(r.Results) == 1 {
+					if k, ok := r.Results[0].(*ssa.Const); ok && k.Value != nil && k.Value.String() == "false" {
+						again = false
+					}
+				}
 				link(vf.last[hb], pc.after)
+				if again {
+					link(vf.last[hb], vf.first[pc.h.Blocks[0]])
+				}
 			}
 		}
 	}
